@@ -154,6 +154,7 @@ class SEvent:
         self.S.point('ev.set')
         self.flag = True
         self.S.effect('evset', self)
+        self.S.point('ev.set.done')      # a waiter may run before the setter's next statement
     def clear(self):
         self.flag = False
     def is_set(self):
